@@ -2,6 +2,7 @@
 from __future__ import annotations
 
 import datetime
+import glob
 import os
 import pathlib
 import re
@@ -78,6 +79,8 @@ def glob_to_re(pat: str) -> re.Pattern:
 def include_matches(files: dict, cur: str, inc: str) -> list[str]:
     """Files (relative names) that an include directive in file `cur` refers to - computed textually, without the file system."""
     base = os.path.dirname(cur)
+    if inc.startswith('{ABS}/'):
+        base, inc = '', inc[len('{ABS}/'):]
     pat = os.path.normpath(os.path.join(base, inc)) if base or not inc.startswith('**') else inc
     if not any(c in inc for c in '*?'):
         return [pat] if pat in files else []
@@ -174,7 +177,7 @@ def _run(case: dict, res: Result, tmp: str) -> Result:
         classes.add('workspace-dir-with-glob-chars')
     texts = {}
     for name, f in files.items():
-        text = f['text']
+        text = f['text'].replace('{ABS}', glob.escape(tmp))   # the include's filename is a pattern: its author escapes it
         try:
             common.parse_file(text)
         except Exception:  # noqa: BLE001
@@ -230,7 +233,22 @@ def _run(case: dict, res: Result, tmp: str) -> Result:
             with ed.edit_file_recursive(arg) as fs:
                 keys = set(fs.keys())
                 exp_keys = {key_of(n) for n in reach}
-                if keys != exp_keys:
+                mixed = any(i.startswith('{ABS}/') for n in reach for i in files[n]['includes']) and not absolute
+                if mixed:
+                    # relative root and absolute includes: a file may be keyed by either spelling, but each file appears once
+                    classes.add('mixed-spellings')
+                    by_abs: dict[str, str] = {}
+                    for k in keys:
+                        a = os.path.abspath(k)
+                        if a in by_abs:
+                            res.bad('visited-twice', f'the same file is in the mapping under two spellings: {by_abs[a]!r} and {k!r} (root {arg!r}, keys {sorted(keys)})')
+                            return res
+                        by_abs[a] = k
+                    if set(by_abs) != {os.path.abspath(n) for n in reach}:
+                        res.bad('keys', f'mapping keys {sorted(keys)} but the graph reaches {sorted(reach)} (root {arg!r})')
+                        return res
+                    key_of = lambda name: by_abs.get(os.path.abspath(name), os.path.normpath(name))  # noqa: E731
+                elif keys != exp_keys:
                     res.bad('keys', f'mapping keys {sorted(keys)} but the graph reaches {sorted(exp_keys)} (root {arg!r})')
                     return res
                 for e in edits:
@@ -379,7 +397,8 @@ def _build(tier: str):
                     elif x == 3:
                         inc = g.pick(['*.bean', '??.bean', '**/*.bean'])
                     elif x == 4:
-                        inc = os.path.join('zz', '..', os.path.relpath(tgt, base or '.')) if False else os.path.relpath(tgt, base or '.')
+                        # an absolute include (legal): '{ABS}' stands for the workspace directory, substituted when the files are written
+                        inc = '{ABS}/' + tgt if g.p(0.5) else os.path.relpath(tgt, base or '.')
                     else:
                         sub = os.path.dirname(tgt)
                         inc = os.path.relpath(os.path.join(sub, '*.bean'), base or '.')
